@@ -925,7 +925,11 @@ def check_exec(ctx):
                             pop = canon(v)
         st = 'stack %s, push=%s, operands=%s of %s, delete %s' % (stack, push, order, pop, dele)
         front = (push == 'front' and pop == '%s[:%s]' % (stack, N) and order == 'reversed' and dele == pop)
-        back = (push == 'back' and pop in ('%s[(-1*%s):]' % (stack, N), '%s[-%s:]' % (stack, N)) and order == 'plain' and dele == pop)
+        tails = ('%s[(-1*%s):]' % (stack, N), '%s[-%s:]' % (stack, N),
+                 # len(stack) - n clamped at 0: the last n entries, for n >= 1 (n == 0 is the leaf case)
+                 '%s[max((-1*%s + len(%s)), 0):]' % (stack, N, stack), '%s[max((len(%s) + -1*%s), 0):]' % (stack, stack, N),
+                 '%s[(-1*%s + len(%s)):]' % (stack, N, stack), '%s[(len(%s) + -1*%s):]' % (stack, stack, N))
+        back = (push == 'back' and pop in tails and order == 'plain' and dele == pop)
         if (front and top == 'front') or (back and top == 'back'):
             ctx.holds(rule, fi, st, 'operands reach the operator in the order they were compiled (left, right)', lp.lineno, clause='d')
         elif front or back:
